@@ -1,6 +1,7 @@
 package main
 
 import (
+	"regexp"
 	"go/token"
 	"go/types"
 	"strings"
@@ -178,4 +179,49 @@ func splitTopLevel(s string) []string {
 func locksHeldIn(c *Ctx, fn *ssa.Function, in ssa.Instruction) lockSet {
 	ml := NewMustLocks(c, map[*ssa.Function]bool{fn: true}, nil)
 	return ml.HeldAt(in)
+}
+
+var fmtKeyRe = regexp.MustCompile(`^fmt\.Sprintf\("([^"%]*)%([dsv])",\{(.*)\}\)$`)
+
+// normFmtKey canonicalises the key of a formatted string with one trailing verb, so that fmt.Sprintf("p=%d", x),
+// "p=" + strconv.Itoa(x) and (for %s) "p=" + x read the same.
+func normFmtKey(k string) string {
+	m := fmtKeyRe.FindStringSubmatch(k)
+	if m == nil {
+		return k
+	}
+	arg := m[3]
+	if m[2] == "d" {
+		arg = "strconv.Itoa(" + arg + ")"
+	}
+	if m[1] == "" {
+		return arg
+	}
+	return `("` + m[1] + `"+` + arg + `)`
+}
+
+// canonCallKey rewrites the list-valued arguments of a call key ("f(a,append({x},y))") into a canonical element list,
+// so that a slice assembled by one append, by several, from a literal or from a pre-sized empty slice reads the same.
+func canonCallKey(s string) string {
+	i := strings.Index(s, "(")
+	if i < 0 || !strings.HasSuffix(s, ")") {
+		return s
+	}
+	args := splitTopLevel(s[i+1 : len(s)-1])
+	for k, a := range args {
+		a = strings.TrimSpace(a)
+		if strings.HasPrefix(a, "append(") || strings.HasPrefix(a, "{") {
+			var els []string
+			for _, e := range flattenAppend(a) {
+				e = strings.TrimSpace(e)
+				if e == "nil" || e == "make[0]" || e == "" {
+					continue // an empty base contributes no element
+				}
+				els = append(els, e)
+			}
+			a = "list[" + strings.Join(els, " ") + "]"
+		}
+		args[k] = a
+	}
+	return s[:i+1] + strings.Join(args, ",") + ")"
 }
